@@ -34,6 +34,11 @@ func propC18(w *World, r *Report) {
 	r.Scope["functions_that_can_return_an_io_error"] = n
 	r.Conds["readbytes-nil-on-error"] = condNilOnError(w, "(*parser.Parser).ReadBytes")
 	ef.RunErrDrop(mod)
+	// errors that are not I/O errors (format errors of nested decoders and
+	// encoders) must reach the caller as well: a truncated table shows up as
+	// such an error in the decoder that runs out of bytes
+	(&errflow{w: w, r: r, ioerr: ef.ioerr, anyErr: "errprop"}).RunErrDrop(mod)
+	r.Floor("errprop", 75)
 	RunErrControls(r)
 	ef.RunByteCount(mod)
 	RunSortedBeforeIndexed(w, r, mod)
